@@ -192,7 +192,7 @@ def py_writer_model(streams, ops):
     return None
 
 
-def py_reader_model(streams, counts, ops):
+def py_reader_model(streams, counts, ops, skip_completed_check=False):
     """ops: ("R", k) obtain value/iterable of step k; ("N", j) call next() j times on the current iterable;
     ("D",) drain it; ("C",) close.  An iterable is finished once next() has been called past its last item."""
     n, cur = len(streams), 0
@@ -222,7 +222,8 @@ def py_reader_model(streams, counts, ops):
             if open_iter:
                 dead = True
         elif op[0] == "C":
-            if open_iter or cur != n:
+            # a reader constructed with skip_completed_check=True may be closed early; the order of reads is enforced all the same
+            if (open_iter or cur != n) and not skip_completed_check:
                 return i
             return None
     return None
@@ -485,9 +486,10 @@ def run_py_writer_with_failed_call(model, proto, pyvals, ops, fmt="binary"):
     return "closed", "", acked, out
 
 
-def run_py_reader(model, proto, data, ops, fmt="binary"):
+def run_py_reader(model, proto, data, ops, fmt="binary", skip_completed_check=False):
     try:
-        r = model.cls(proto, fmt, "Reader")(io.BytesIO(data) if fmt == "binary" else io.StringIO(data.decode("utf-8")))
+        src = io.BytesIO(data) if fmt == "binary" else io.StringIO(data.decode("utf-8"))
+        r = model.cls(proto, fmt, "Reader")(src, skip_completed_check=True) if skip_completed_check else model.cls(proto, fmt, "Reader")(src)
     except Exception as e:  # noqa
         return -1, e
     meths = model.step_methods(r, "read_")
@@ -601,19 +603,22 @@ def model_task(task, ybin, root):
                 if why:
                     viols.append(({"class": "step_order_not_enforced" if (exp is not None and (got is None or got > exp)) else "legal_history_rejected", "api": "python_writer"},
                                   dict(doc(model, proto, task, "python_writer", ops, counts, why), format=pfmt)))
+                skipc = hr.fork("skipc").chance(0.3)       # the reader's constructor option: close() does not insist on completeness
+                if skipc:
+                    stats["py_reader_skip_completed_check"] = stats.get("py_reader_skip_completed_check", 0) + 1
                 if h % 2 == 1:
-                    ops, mk2 = until_close(guided(hr.fork("r"), draw_py_reader(streams), lambda o: py_reader_model(streams, counts, o), lambda o: o[0] == "C", streams)), "guided"
+                    ops, mk2 = until_close(guided(hr.fork("r"), draw_py_reader(streams), lambda o: py_reader_model(streams, counts, o, skipc), lambda o: o[0] == "C", streams)), "guided"
                 else:
                     ops, mk2 = mutate(hr.fork("r"), legal_py_reader(hr.fork("r"), streams), n, lambda r: ["R", r.randrange(n)] if r.chance(0.6) else (["D"] if r.chance(0.4) else (["A"] if r.chance(0.5) else ["C"])))
                 stats["mut_" + mk2] = stats.get("mut_" + mk2, 0) + 1
-                exp = py_reader_model(streams, counts, ops)
-                got, exc = run_py_reader(model, proto, data if pfmt == "binary" else ndraw, ops, pfmt)
+                exp = py_reader_model(streams, counts, ops, skipc)
+                got, exc = run_py_reader(model, proto, data if pfmt == "binary" else ndraw, ops, pfmt, skipc)
                 stats["runs"] += 1
                 stats["py_reader_" + ("legal" if exp is None else "illegal")] = stats.get("py_reader_" + ("legal" if exp is None else "illegal"), 0) + 1
                 why = judge(exp, got, exc, ops, "python reader")
                 if why:
                     viols.append(({"class": "step_order_not_enforced" if (exp is not None and (got is None or got > exp)) else "legal_history_rejected", "api": "python_reader"},
-                                  dict(doc(model, proto, task, "python_reader", ops, counts, why), format=pfmt)))
+                                  dict(doc(model, proto, task, "python_reader", ops, counts, why), format=pfmt, skip_completed_check=skipc)))
             # a call whose *implementation* fails (a value that cannot be serialized) in the middle of a legal history;
             # the caller then tries to go back to the stream before it, retries with a good value and completes the
             # protocol.  Whatever the writer makes of the failed call: if it lets the history run to a successful
@@ -752,7 +757,8 @@ def replay_doc(d, ybin, root):
         if api == "python_reader":
             exp = py_reader_model(streams, counts, ops)
             rfmt = d.get("format", "binary")
-            got, exc = run_py_reader(model, proto, data if rfmt == "binary" else codec.encode_ndjson(proto, ns, model.schema(proto), vals).encode("utf-8"), ops, rfmt)
+            exp = py_reader_model(streams, counts, ops, d.get("skip_completed_check", False))
+            got, exc = run_py_reader(model, proto, data if rfmt == "binary" else codec.encode_ndjson(proto, ns, model.schema(proto), vals).encode("utf-8"), ops, rfmt, d.get("skip_completed_check", False))
             why = judge(exp, got, exc, ops, "python reader")
             return bool(why), why
         if api == "python_reader_cut":
